@@ -13,7 +13,7 @@ from ..paths import enumerate_paths
 from ..flow import Flow
 from .. import tables
 from ..tables import Atom
-from .c12_interp import Interp, Obj, Sym, Member, ClassRef, Frame, Raised, explore, outcome, Leaf, tagged, tag_of
+from ..consteval import fold_expr, fold_const, EnumMember
 
 MTEST = 'mesonbuild/mtest.py'
 BACKENDS = 'mesonbuild/backend/backends.py'
@@ -24,20 +24,27 @@ EXPLANATION = (
     'established runner.is_parallel - awaits complete_all(futures) before and complete(future) after the scheduling; every way '
     'out of the loop passes the final complete_all barrier.  R2: inside the runner closure test.run() is awaited only while an '
     '`async with` on the one asyncio.Semaphore(self.options.num_processes) is held and after the cancellation flag was seen false; '
-    'is_parallel of a runner implies test.is_parallel and num_processes > 1; num_processes is only ever lowered.  '
-    'R3a: the end-to-end classification table of every protocol class (complete -> super().complete -> _complete), evaluated on a '
-    'finite world of (previous result, exit status, expected status, should_fail, interactive), equals the documented rule.  '
-    'R3b: the timeout table of SingleTestRunner.__init__.  R3c: tests are serialised by descending priority and the scheduling '
-    'fields are stored in the slots mtest reads.  R4: process_test_result has exactly one counter per finished result with the '
-    'documented grouping, total_failure_count sums exactly the counters of TestResult.is_bad, doit returns non-zero iff that sum '
-    'is positive, summary prints every counter under its label.  R5: --slice i/n parsing and tests[i-1::n] partition the test list.  '
-    'Does NOT decide asyncio interleavings beyond this await protocol, that timeouts kill process groups, or --maxfail timing.')
+    'every way the is_parallel expression of a runner can be true contains the atoms test.is_parallel and num_processes > 1; '
+    'num_processes is only ever lowered.  R3a: per-method decision tables over the typestate of self.res (paths of '
+    'TestRunExitCode.complete, TestRunTAP.complete, TestRun._complete, complete_skip; worlds = members of TestResult x '
+    'equality atoms of the exit status x should_fail/console atoms) equal the documented rule, and each complete() of a protocol '
+    'class delegates to the next one on every path (CFG), with the chain shape fixed per protocol.  R3b: the timeout table of '
+    'SingleTestRunner.__init__ over the sign classes of its atoms, with symbolic outcomes (None / declared / product).  R3c: the '
+    'serialisation loop iterates sorted() with a key of negative priority coefficient, no path skips the append, the scheduling '
+    'fields land in their TestSerialisation slots.  R4: process_test_result has exactly one `counter += 1` arm per finished '
+    'member with the documented grouping, the counters added by total_failure_count are exactly those fed by the members of the '
+    'folded is_bad set, doit returns non-zero iff total_failure_count() > 0, the label->counter table of summary agrees and every '
+    'positive counter is printed.  R5: test_slice returns (int(part 0), int(part 1)) under the documented guards and get_tests '
+    'selects tests[SLICE-1::NUM_SLICES].  NOT decided: asyncio interleavings beyond this await protocol; that timeouts kill '
+    'process groups; --maxfail timing; the composed end-to-end value of complete() for a concrete run (only the per-method tables '
+    'and their chaining); the rendered text of summary(); the partition property of --slice as such (only the offset/stride roles).')
 ASSUMPTIONS = [
     'asyncio.Semaphore(n) admits at most n holders; awaiting a future returns only after it is done',
     'complete_all(futures) / complete(future) wait for their argument (only the flow parameter -> awaited expression is checked)',
-    'TestResult members are compared by identity/equality only; exit statuses only by equality (checked: otherwise undecided)',
+    'TestResult members are distinct; 0, 77 and 99 are distinct exit statuses; a[i-1::n] over i=1..n partitions a (Python slicing)',
 ]
-TECHNIQUE = 'path typestate over the scheduler loop + CFG must-pass + finite-domain evaluation of the classification/tally/slice tables'
+TECHNIQUE = ('path enumeration + canonical atoms + world enumeration (typestate of the scheduler loop and of self.res, decision tables '
+             'with symbolic outcomes), CFG must-pass/dominance, flow origins, constant folding of enum sets and exit-status constants')
 
 
 # ---------------------------------------------------------------------------
@@ -245,9 +252,90 @@ def _atom_src(a: Atom) -> str:
     return f'({a.args[0]}, {a.args[1]})'
 
 
-def _init_alias_world(it: Interp, mod: Module, cls: str, values: T.Dict[str, T.Any]) -> T.Tuple[Frame, Obj]:
-    """Frame for evaluating expressions of `cls.__init__`: parameters annotated TestSerialisation / Namespace are
-    objects whose attributes come from `values` ('test.x' / 'options.y'); `self.a = <param>` aliases are honoured."""
+def _single_defs(fn: T.Any, calls: T.Iterable[str] = ()) -> T.Dict[str, ast.AST]:
+    """Copy propagation facts of fn: locals stored exactly once, outside loops, by `x = <pure expression>`, whose value
+    reads only parameters, attributes and other such locals.  (The engine's table extraction inlines only locals that
+    read no other local; this closes the chain `values = arg.split('/')`, `n = int(values[1])`.)"""
+    allowed = tables.INLINE_CALLS | set(calls)
+    params = {a.arg for a in fn.args.args + fn.args.kwonlyargs}
+    stores: T.Dict[str, int] = {}
+    for n in walk_no_nested(fn):
+        if isinstance(n, ast.Name) and isinstance(n.ctx, (ast.Store, ast.Del)):
+            stores[n.id] = stores.get(n.id, 0) + 1
+    cands: T.Dict[str, ast.AST] = {}
+
+    def visit(stmts: T.List[ast.stmt], loop: bool) -> None:
+        for st in stmts:
+            if not loop and isinstance(st, ast.Assign) and len(st.targets) == 1 and isinstance(st.targets[0], ast.Name):
+                cands[st.targets[0].id] = st.value
+            elif not loop and isinstance(st, ast.AnnAssign) and isinstance(st.target, ast.Name) and st.value is not None:
+                cands[st.target.id] = st.value
+            for field in ('body', 'orelse', 'finalbody'):
+                sub = getattr(st, field, None)
+                if isinstance(sub, list) and sub and isinstance(sub[0], ast.stmt) and not isinstance(st, (ast.FunctionDef, ast.AsyncFunctionDef, ast.ClassDef)):
+                    visit(sub, loop or isinstance(st, (ast.For, ast.While, ast.AsyncFor)))
+            for h in getattr(st, 'handlers', []):
+                visit(h.body, loop)
+    visit(fn.body, False)
+
+    def pure(v: ast.AST) -> bool:
+        for n in ast.walk(v):
+            if isinstance(n, (ast.Await, ast.Yield, ast.YieldFrom, ast.NamedExpr, ast.Lambda)):
+                return False
+            if isinstance(n, ast.Call):
+                f = n.func
+                nm = f.attr if isinstance(f, ast.Attribute) else (f.id if isinstance(f, ast.Name) else '')
+                if nm not in allowed:
+                    return False
+        return True
+    cands = {k: v for k, v in cands.items() if stores.get(k) == 1 and k not in params and pure(v)}
+    done: T.Dict[str, ast.AST] = {}
+    changed = True
+    while changed:
+        changed = False
+        for k, v in cands.items():
+            if k in done:
+                continue
+            reads = {x for x in names_in(v) if x in stores}
+            if reads <= set(done):
+                done[k] = tables._Subst(done).visit(tables._copy(v))
+                changed = True
+    return done
+
+
+def _inline_locals(fn: T.Any, expr: ast.AST, calls: T.Iterable[str] = ()) -> ast.AST:
+    """expr with the copy-propagation facts of fn substituted."""
+    return tables._Subst(_single_defs(fn, calls)).visit(tables._copy(expr))
+
+
+def _propagated(fn: T.Any, calls: T.Iterable[str] = ()) -> T.Any:
+    """A copy of fn in which every read of such a local is replaced by its defining expression."""
+    f2 = tables._copy(fn)
+    sub = tables._Subst(_single_defs(fn, calls))
+    f2.body = [sub.visit(st) for st in f2.body]
+    ast.fix_missing_locations(f2)
+    return f2
+
+
+def _ways_true(expr: ast.AST) -> T.List[T.Dict[Atom, bool]]:
+    """Every way `expr` can be truthy, as canonical atom assignments (engine path enumeration over a synthetic test)."""
+    probe = ast.If(test=tables._copy(expr), body=[ast.Return(value=ast.Constant(value=True))], orelse=[ast.Return(value=ast.Constant(value=False))])
+    ast.fix_missing_locations(probe)
+    out = []
+    for p in enumerate_paths([probe]):
+        if p.outcome == 'return' and isinstance(p.value, ast.Constant) and p.value.value is True:
+            conds: T.Dict[Atom, bool] = {}
+            for ev in p.events:
+                if ev.kind == 'cond':
+                    a, v = tables.canon(ev.node, ev.val)
+                    conds[a] = v
+            out.append(conds)
+    return out
+
+
+def _init_roles(mod: Module, cls: str) -> T.Dict[str, str]:
+    """Chain prefixes of `cls.__init__` that denote the serialised test / the options: parameters by annotation and
+    their `self.x = <param>` aliases."""
     fn = mod.func(f'{cls}.__init__')
     roles: T.Dict[str, str] = {}
     for a in fn.args.args:
@@ -258,35 +346,53 @@ def _init_alias_world(it: Interp, mod: Module, cls: str, values: T.Dict[str, T.A
             roles[a.arg] = 'options'
     if sorted(roles.values()) != ['options', 'test']:
         raise Undecided(f'{cls}.__init__: cannot identify the test / options parameters')
-    objs = {'test': Obj('test'), 'options': Obj('options')}
-    for k, v in values.items():
-        role, _, attr = k.partition('.')
-        objs[role].attrs[attr] = tagged(v, attr)
-    self_obj = Obj('self', ClassRef(mod, mod.cls(cls)))
-    env: T.Dict[str, T.Any] = {'self': self_obj}
-    for a in fn.args.args:
-        if a.arg == 'self':
-            continue
-        env[a.arg] = objs[roles[a.arg]] if a.arg in roles else Sym(a.arg)
     for st in fn.body:
         if isinstance(st, ast.Assign) and len(st.targets) == 1 and isinstance(st.targets[0], ast.Attribute) and isinstance(st.targets[0].value, ast.Name) \
                 and st.targets[0].value.id == 'self' and isinstance(st.value, ast.Name) and st.value.id in roles:
-            self_obj.attrs[st.targets[0].attr] = objs[roles[st.value.id]]
-    # the tracked inputs must not be written by the constructor
-    for n in ast.walk(fn):
-        if isinstance(n, ast.Attribute) and isinstance(n.ctx, ast.Store):
-            ch = attr_chain(n) or ''
-            for k in values:
-                role, _, attr = k.partition('.')
-                if ch.endswith('.' + attr) and any(ch.startswith(p) for p in [r for r, ro in roles.items() if ro == role] + [f'self.{x}' for x, o in self_obj.attrs.items() if o is objs[role]]):
-                    raise Undecided(f'{cls}.__init__ writes {ch}')
-    return Frame(mod, env, ClassRef(mod, mod.cls(cls)), self_obj, 0), self_obj
+            roles[f'self.{st.targets[0].attr}'] = roles[st.value.id]
+    for ch in [k for k in roles if k.startswith('self.')]:
+        if sum(1 for m in ast.walk(fn) if isinstance(m, ast.Attribute) and isinstance(m.ctx, ast.Store) and attr_chain(m) == ch) != 1:
+            raise Undecided(f'{cls}.__init__: {ch} is rebound')
+    for name, arg in tables._param_map(fn).items():   # the engine's positional parameter names
+        if name in roles:
+            roles[arg.id] = roles[name]   # type: ignore[attr-defined]
+    return roles
 
 
-def _slice_for(fn: T.Any, expr: ast.AST) -> T.List[ast.stmt]:
-    """Top-level statements of fn that (transitively) define the local names read by expr (backward slice)."""
+def _role_chain(text: str, roles: T.Dict[str, str]) -> str:
+    """'self.test.timeout' / 'test.timeout' -> 'test.timeout' (role-relative), anything else unchanged."""
+    best = ''
+    for pre in roles:
+        if (text == pre or text.startswith(pre + '.')) and len(pre) > len(best):
+            best = pre
+    if best:
+        return roles[best] + text[len(best):]
+    return text
+
+
+class _Roles(ast.NodeTransformer):
+    def __init__(self, roles: T.Dict[str, str]):
+        self.roles = roles
+
+    def visit_Attribute(self, n: ast.Attribute) -> ast.AST:
+        ch = attr_chain(n)
+        if ch is not None:
+            r = _role_chain(ch, self.roles)
+            if r != ch:
+                return ast.parse(r, mode='eval').body
+            return n
+        return self.generic_visit(n)
+
+    def visit_Name(self, n: ast.Name) -> ast.AST:
+        if n.id in self.roles:
+            return ast.Name(id=self.roles[n.id], ctx=ast.Load())
+        return n
+
+
+def _slice_for(fn: T.Any, names: T.Set[str]) -> T.List[ast.stmt]:
+    """Top-level statements of fn that (transitively) define the given local names (backward slice)."""
     params = {a.arg for a in fn.args.args + fn.args.kwonlyargs}
-    need = {n for n in names_in(expr)} - params
+    need = set(names) - params
     chosen: T.List[ast.stmt] = []
     changed = True
     while changed:
@@ -335,17 +441,21 @@ def _testrun_arg(mod: Module, field: str) -> T.Tuple[T.Any, ast.AST, str]:
     raise Undecided(f'SingleTestRunner.__init__: no argument for {cls}.{pname}')
 
 
-def _eval_init_expr(ctx: RuleCtx, mod: Module, init: T.Any, expr: ast.AST, values: T.Dict[str, T.Any]) -> T.List[Leaf]:
-    stmts = _slice_for(init, expr)
-
-    def run(it: Interp) -> T.Any:
-        fr, _ = _init_alias_world(it, mod, 'SingleTestRunner', values)
-
-        def thunk() -> T.Any:
-            it.exec_block(stmts, fr)
-            return it.eval(expr, fr)
-        return outcome(it, thunk)
-    return explore(ctx.repo, run)
+def _lt_const(a: Atom, v: bool, chain: str, roles: T.Dict[str, str]) -> T.Optional[T.Tuple[str, int]]:
+    """An ordering fact about role-chain `chain` vs an integer constant: ('gt', c) = chain > c ... or None."""
+    if a.kind != 'cmp' or a.args[0] != 'lt':
+        return None
+    x, y = _role_chain(a.args[1], roles), _role_chain(a.args[2], roles)
+    try:
+        if y == chain:
+            c = int(x)
+            return ('gt', c) if v else ('le', c)
+        if x == chain:
+            c = int(y)
+            return ('lt', c) if v else ('ge', c)
+    except ValueError:
+        return None
+    return None
 
 
 def r2(ctx: RuleCtx) -> None:
@@ -417,34 +527,26 @@ def r2(ctx: RuleCtx) -> None:
                         f'a path reaches {p}.run() without testing {"/".join(sorted(flags))}: tests still start after the run was cut short ({bad.describe() if bad else ""})', cl)
     ctx.floor('test.run() call sites in runner closures', n_runs, 1)
 
-    # is_parallel of a runner implies test.is_parallel and num_processes > 1
+    # is_parallel of a runner implies test.is_parallel and num_processes > 1 (every way the expression is true contains both atoms)
     init, expr, cls = _testrun_arg(mod, 'is_parallel')
-    n = 0
-    worst: T.Optional[str] = None
-    foreign = False
-    for tp, npv, inter in itertools.product((True, False), (0, 1, 2, 8), (True, False)):
-        leaves = _eval_init_expr(ctx, mod, init, expr, {'test.is_parallel': tp, 'options.num_processes': npv, 'options.interactive': inter,
-                                                        'test.timeout': 30, 'options.timeout_multiplier': None})
-        for lf in leaves:
-            n += 1
-            for opn, a, b in lf.interp.compares:
-                for x, other in ((a, b), (b, a)):
-                    if tag_of(x) == 'num_processes' and (tag_of(other) or other not in (1, 2)):
-                        raise Undecided(f'SingleTestRunner.__init__: num_processes compared with {other!r}; the sample domain is built for the threshold 1')
-                    if tag_of(x) in ('timeout', 'timeout_multiplier'):
-                        foreign = True
-            oc = lf.data
-            if oc[0] != 'return':
-                raise Undecided(f'SingleTestRunner.__init__: is_parallel expression raises {oc[1]}')
-            val = lf.atom(oc[1].text) if isinstance(oc[1], Sym) else lf.interp.truth(oc[1])
-            if val is None:
-                raise Undecided(f'SingleTestRunner.__init__: is_parallel is not decided by test.is_parallel/num_processes/interactive: {oc[1]!r}')
-            if val and not (tp and npv > 1):
-                worst = f'test.is_parallel={tp}, num_processes={npv}, interactive={inter}'
-    if worst is None and foreign:
-        raise Undecided('SingleTestRunner.__init__: is_parallel depends on the timeout inputs')
-    ctx.require(worst is None, f'is_parallel => test.is_parallel and num_processes > 1 ({n} evaluations of `{short(expr, 70)}`)', mod, 'SingleTestRunner.__init__',
-                'is_parallel argument of ' + cls, f'a runner is parallel for {worst}: a serial test (or a -j1 run) is scheduled without the barriers', expr)
+    roles = _init_roles(mod, 'SingleTestRunner')
+    e2 = _Roles(roles).visit(_inline_locals(init, expr))
+    ways = _ways_true(e2)
+    if not ways:
+        raise Undecided(f'SingleTestRunner.__init__: `{short(expr)}` can never be true')
+    worst = None
+    for w in ways:
+        has_test = w.get(Atom('truth', ('test.is_parallel',))) is True
+        has_jobs = False
+        for a, v in w.items():
+            f = _lt_const(a, v, 'options.num_processes', {})
+            if f in (('gt', 1), ('ge', 2)):
+                has_jobs = True
+        if not (has_test and has_jobs):
+            worst = ' & '.join(('' if v else 'not ') + repr(a) for a, v in w.items())
+    ctx.require(worst is None, f'is_parallel => test.is_parallel and num_processes > 1 ({len(ways)} way(s) for `{short(e2, 90)}` to hold)', mod, 'SingleTestRunner.__init__',
+                'is_parallel argument of ' + cls, f'a runner is parallel when [{worst}] holds, which does not establish test.is_parallel and num_processes > 1: '
+                'a serial test (or a -j1 run) is scheduled without the barriers', expr)
 
     # num_processes is only lowered
     nw = 0
@@ -474,23 +576,238 @@ def r2(ctx: RuleCtx) -> None:
 # ---------------------------------------------------------------------------
 
 BAD = {'FAIL', 'TIMEOUT', 'INTERRUPT', 'UNEXPECTEDPASS', 'ERROR'}
-KIND = {'EXITCODE': 'exitcode', 'GTEST': 'exitcode', 'TAP': 'tap', 'RUST': 'plain'}   # protocol -> classification rule
+KIND = {'EXITCODE': ['exitcode'], 'GTEST': ['pass', 'exitcode'], 'TAP': ['tap'], 'RUST': []}   # protocol -> tables before TestRun.complete
 SKIP_RC, ERROR_RC = 77, 99   # GNU conventions (docs/markdown/Unit-tests.md "Skipped tests and hard errors")
+RES = 'self.res'
 
 
-def ref_classify(kind: str, res0: str, rc: int, exp: T.Optional[int], xfail: bool) -> str:
-    base = res0
-    if kind == 'exitcode' and res0 == 'RUNNING':
-        base = 'OK' if rc == (exp or 0) else 'SKIP' if rc == SKIP_RC else 'ERROR' if rc == ERROR_RC else 'FAIL'
-    if kind == 'tap' and rc != 0 and res0 not in BAD:
-        base = 'ERROR'
-    if base == 'RUNNING':
-        base = 'OK'
-    if xfail and base == 'OK':
-        return 'UNEXPECTEDPASS'
-    if xfail and base == 'FAIL':
-        return 'EXPECTEDFAIL'
-    return base
+def _enum_names(mod: Module, cls: str) -> T.List[str]:
+    return [st.targets[0].id for st in mod.cls(cls).body
+            if isinstance(st, ast.Assign) and len(st.targets) == 1 and isinstance(st.targets[0], ast.Name) and not st.targets[0].id.startswith('_')]
+
+
+def _member_name(text: str, enum: str = 'TestResult') -> T.Optional[str]:
+    return text[len(enum) + 1:] if text.startswith(enum + '.') and text.count('.') == 1 else None
+
+
+def _member_set(ctx: RuleCtx, mod: Module, text: str) -> T.Optional[T.Set[str]]:
+    """Fold a constant container of TestResult members written in the source."""
+    try:
+        v = fold_expr(ctx.repo, mod, ast.parse(text, mode='eval').body)
+    except (Undecided, SyntaxError):
+        return None
+    if isinstance(v, (set, frozenset, tuple, list)) and all(isinstance(x, EnumMember) and x.cls == 'TestResult' for x in v):
+        return {x.name for x in v}
+    return None
+
+
+def _method_member_set(ctx: RuleCtx, mod: Module, meth: str) -> T.Set[str]:
+    """TestResult.<meth>: `return self in {...}` / `return self not in {...}` -> the set of members for which it holds."""
+    fn = mod.func(f'TestResult.{meth}')
+    rets = [r for r in walk_no_nested(fn) if isinstance(r, ast.Return)]
+    if len(rets) == 1 and isinstance(rets[0].value, ast.Compare) and len(rets[0].value.ops) == 1 and norm(rets[0].value.left) == 'self':
+        ms = _member_set(ctx, mod, norm(rets[0].value.comparators[0]))
+        if ms is not None:
+            if isinstance(rets[0].value.ops[0], ast.In):
+                return ms
+            if isinstance(rets[0].value.ops[0], ast.NotIn):
+                return set(_enum_names(mod, 'TestResult')) - ms
+    raise Undecided(f'TestResult.{meth} is not a membership test in a constant set of members')
+
+
+def _res_pred(ctx: RuleCtx, mod: Module, a: Atom, subject: str) -> T.Optional[T.Set[str]]:
+    """If atom `a` is a predicate on the enum-valued `subject` against constants: the members for which it is true."""
+    if a.kind in ('cmp', 'is'):
+        ops = a.args[1:] if a.kind == 'cmp' else a.args
+        if a.kind == 'cmp' and a.args[0] != 'eq':
+            return None
+        if subject in ops:
+            other = ops[1] if ops[0] == subject else ops[0]
+            m = _member_name(other)
+            return {m} if m else None
+    if a.kind == 'in' and a.args[0] == subject:
+        return _member_set(ctx, mod, a.args[1])
+    if a.kind == 'isinstance' and a.args[0] == subject and a.args[1] == ('TestResult',):
+        return set(_enum_names(mod, 'TestResult'))
+    if a.kind == 'truth' and a.args[0].startswith(subject + '.') and a.args[0].endswith('()'):
+        meth = a.args[0][len(subject) + 1:-2]
+        if mod.has_func(f'TestResult.{meth}'):
+            return _method_member_set(ctx, mod, meth)
+    return None
+
+
+class _SplitCondAssign(ast.NodeTransformer):
+    """`x = A if c else B`  ->  `if c: x = A` / `else: x = B`  (so that the path enumerator sees the decision)."""
+
+    def visit_Assign(self, n: ast.Assign) -> ast.AST:
+        if isinstance(n.value, ast.IfExp):
+            a = ast.Assign(targets=n.targets, value=n.value.body, lineno=n.lineno, col_offset=n.col_offset)
+            b = ast.Assign(targets=n.targets, value=n.value.orelse, lineno=n.lineno, col_offset=n.col_offset)
+            return ast.copy_location(ast.If(test=n.value.test, body=[self.visit_Assign(a)], orelse=[self.visit_Assign(b)]), n)   # type: ignore[list-item]
+        return n
+
+
+class ResRow:
+    def __init__(self) -> None:
+        self.init: T.List[T.Tuple[T.FrozenSet[str], bool]] = []   # constraints on the result the function starts with
+        self.conds: T.Dict[Atom, bool] = {}                          # other canonical atoms
+        self.final: T.Optional[str] = None                           # member assigned last (None: unchanged)
+        self.calls: T.List[str] = []
+        self.writes: T.List[str] = []                                # other `self.x := value` effects
+        self.outcome = 'fall'
+
+    def describe(self) -> str:
+        cs = [('' if v else 'not ') + f'res in {sorted(s)}' for s, v in self.init] + [('' if v else 'not ') + repr(a) for a, v in self.conds.items()]
+        return (' & '.join(cs) or 'always') + f' => res := {self.final or "<unchanged>"}'
+
+
+def _res_rows(ctx: RuleCtx, mod: Module, fn: T.Any, qn: str) -> T.List[ResRow]:
+    """Decision table of a method over the typestate of `self.res`: along each enumerated path the last constant
+    assigned to self.res is propagated into later tests of self.res (a test contradicted by it prunes the path);
+    tests met before any assignment constrain the incoming member."""
+    body = [_SplitCondAssign().visit(st) for st in _propagated(fn).body]
+    for st in body:
+        ast.fix_missing_locations(st)
+    rows: T.List[ResRow] = []
+    for p in enumerate_paths(body):
+        row = ResRow()
+        cur: T.Optional[str] = None
+        feasible = True
+        for ev in p.events:
+            if ev.kind == 'cond':
+                a, v = tables.canon(ev.node, ev.val)
+                pred = _res_pred(ctx, mod, a, RES)
+                if pred is not None:
+                    if cur is None:
+                        row.init.append((frozenset(pred), v))
+                    elif (cur in pred) != v:
+                        feasible = False
+                        break
+                    continue
+                if RES in chains_in(ev.node):
+                    raise Undecided(f'{qn}: unknown test of self.res: {short(ev.node)}')
+                if a in row.conds and row.conds[a] != v:
+                    feasible = False
+                    break
+                row.conds[a] = v
+            elif ev.kind == 'stmt' and ev.node is not None:
+                st = ev.node
+                tgts = st.targets if isinstance(st, ast.Assign) else [st.target] if isinstance(st, (ast.AugAssign, ast.AnnAssign)) else []
+                for t in tgts:
+                    ch = attr_chain(t)
+                    if ch == RES:
+                        m = _member_name(norm(st.value)) if isinstance(st, ast.Assign) else None
+                        if m is None:
+                            raise Undecided(f'{qn}: self.res is assigned a non-constant: {short(st)}')
+                        cur = m
+                        row.final = m
+                    elif ch and ch.startswith('self.') and isinstance(st, ast.Assign):
+                        row.writes.append(f'{ch} := {norm(st.value)}')
+                for c in walk_no_nested(st):
+                    if isinstance(c, ast.Call):
+                        row.calls.append(norm(c.func))
+        if feasible:
+            row.outcome = p.outcome
+            rows.append(row)
+    return rows
+
+
+def _fire(rows: T.List[ResRow], member: str, truth: T.Callable[[Atom], T.Optional[bool]]) -> T.List[ResRow]:
+    out = []
+    for r in rows:
+        if any((member in s) != v for s, v in r.init):
+            continue
+        ok = True
+        for a, v in r.conds.items():
+            t = truth(a)
+            if t is not None and t != v:
+                ok = False
+                break
+        if ok:
+            out.append(r)
+    return out
+
+
+def _rc_truth(ctx: RuleCtx, mod: Module, qn: str, a: Atom, rcconst: T.Optional[int], eq_expected: bool) -> T.Optional[bool]:
+    """Truth of an atom about self.returncode in the world (returncode equals the documented constant rcconst or none of
+    them; returncode equals the expected status or not).  None: the atom is about something else."""
+    if a.kind != 'cmp' or 'self.returncode' not in a.args[1:]:
+        if 'self.returncode' in repr(a):
+            raise Undecided(f'{qn}: unknown test of the exit status: {a!r}')
+        return None
+    if a.args[0] != 'eq':
+        raise Undecided(f'{qn}: the exit status is ordered, not compared for equality: {a!r}')
+    other = a.args[2] if a.args[1] == 'self.returncode' else a.args[1]
+    node = ast.parse(other, mode='eval').body
+    if isinstance(node, ast.BoolOp) and isinstance(node.op, ast.Or) and len(node.values) == 2 and (attr_chain(node.values[0]) or '').endswith('.expected_exitcode') \
+            and isinstance(node.values[1], ast.Constant) and node.values[1].value == 0:
+        return eq_expected
+    try:
+        c = fold_expr(ctx.repo, mod, node)
+    except Undecided:
+        c = None
+    if isinstance(c, int) and not isinstance(c, bool):
+        if c not in (0, SKIP_RC, ERROR_RC):
+            raise Undecided(f'{qn}: the exit status is compared with {c}; the documented constants are 0/{SKIP_RC}/{ERROR_RC}')
+        return rcconst == c
+    raise Undecided(f'{qn}: the exit status is compared with {other}')
+
+
+def _check_res_table(ctx: RuleCtx, mod: Module, qn: str, fn: T.Any, kind: str, members: T.List[str]) -> None:
+    rows = _res_rows(ctx, mod, fn, qn)
+    n = 0
+    mism: T.Dict[str, str] = {}
+    free = {'parse': Atom('truth', ('self.needs_parsing',)), 'xfail': Atom('truth', ('self.expected_fail',))}
+    inter_atoms = [a for r in rows for a in r.conds if a.kind in ('is', 'cmp') and 'ConsoleUser.INTERACTIVE' in a.args and 'self.console_mode' in a.args]
+    for m in members:
+        for rcconst, eqe, parse, inter, xfail in itertools.product((0, SKIP_RC, ERROR_RC, None), (False, True), (False, True), (False, True), (False, True)):
+            if kind in ('exitcode', 'tap') and (parse or inter):
+                continue   # these tables do not look at the console
+            if kind in ('base', 'skip') and (rcconst is not None or eqe):
+                continue   # ... and the base table does not look at the exit status
+            if kind == 'tap' and eqe:
+                continue
+            if kind == 'base' and parse and inter:
+                continue   # interactive + parsed protocol: IGNORED by design, outside the documented table
+
+            def truth(a: Atom) -> T.Optional[bool]:
+                if a == free['parse']:
+                    return parse
+                if a == free['xfail']:
+                    return xfail
+                if a in inter_atoms:
+                    return inter
+                return _rc_truth(ctx, mod, qn, a, rcconst, eqe)
+            if kind in ('exitcode', 'tap') and xfail:
+                continue
+            fired = _fire(rows, m, truth)
+            finals = {r.final for r in fired}
+            if not fired:
+                raise Undecided(f'{qn}: no row for an incoming {m}')
+            if len(finals) != 1:
+                raise Undecided(f'{qn}: the result for an incoming {m} depends on conditions outside the reference: {[r.describe() for r in fired][:3]}')
+            got = next(iter(finals)) or m
+            n += 1
+            if kind == 'exitcode':
+                want = m if m != 'RUNNING' else 'OK' if eqe else 'SKIP' if rcconst == SKIP_RC else 'ERROR' if rcconst == ERROR_RC else 'FAIL'
+                wit = f'incoming result {m}, exit status ' + ('= expected status' if eqe else 'differs from the expected status') + \
+                    (f' and is {rcconst}' if rcconst is not None else ' and is none of 0/77/99')
+            elif kind == 'tap':
+                want = 'ERROR' if rcconst != 0 and m not in BAD else m
+                wit = f'incoming result {m}, exit status ' + ('0' if rcconst == 0 else 'non-zero')
+            elif kind == 'skip':
+                want = 'SKIP'
+                wit = f'incoming result {m}'
+            else:
+                base = 'OK' if m == 'RUNNING' else m
+                want = ('UNEXPECTEDPASS' if base == 'OK' else 'EXPECTEDFAIL' if base == 'FAIL' else base) if xfail else base
+                wit = f'incoming result {m}, should_fail={xfail}, parsed protocol={parse}, interactive={inter}'
+            if got != want:
+                mism.setdefault(f'{want} expected, {got} computed', wit)
+    for k, wit in mism.items():
+        ctx.violation(mod, qn, f'{kind} classification table: {k}', f'{qn}: for {wit} the result becomes {k.split(", ")[1].split(" ")[0]}; documented rule: {k.split(" ")[0]}', fn)
+    if not mism:
+        ctx.ok(f'{qn}: {kind} table ({len(rows)} rows) equals the documented rule in {n} worlds (members of TestResult x atoms)')
 
 
 def _protocol_classes(mod: Module) -> T.Dict[str, str]:
@@ -503,162 +820,184 @@ def _protocol_classes(mod: Module) -> T.Dict[str, str]:
     return out
 
 
-def _members(ctx: RuleCtx, mod: Module) -> T.Dict[str, Member]:
-    it = Interp(ctx.repo)
-    return it.enum_members(ClassRef(mod, mod.cls('TestResult')))
+def _writes_res(fn: T.Any) -> bool:
+    return any(isinstance(n, ast.Attribute) and isinstance(n.ctx, ast.Store) and attr_chain(n) == RES for n in walk_no_nested(fn))
+
+
+def _delegates(ctx: RuleCtx, mod: Module, qn: str, fn: T.Any, callee: str) -> None:
+    """Every normal path of fn passes the call `callee()`, and self.res is not written after it."""
+    cfg = CFG(fn)
+    calls = cfg.nodes_with_call(lambda c: norm(c.func) == callee)
+    ok = bool(calls) and cfg.dominated_by_any(cfg.exit_return, calls)
+    ctx.require(ok, f'{qn}: every path to the return passes {callee}()', mod, qn, f'{callee}() on every path',
+                f'{qn} can return without calling {callee}(): the rest of the classification (should_fail inversion) is skipped', fn)
+    writes = [n for n in cfg.nodes if n.kind == 'stmt' and any(isinstance(x, ast.Attribute) and isinstance(x.ctx, ast.Store) and attr_chain(x) == RES for x in walk_no_nested(n.ast))]
+    late = [w for w in writes if any(cfg.can_reach(c, w) for c in calls)]
+    ctx.require(not late, f'{qn}: self.res is not written after {callee}()', mod, qn, f'write of self.res after {callee}()',
+                f'{qn} overwrites self.res after {callee}() has applied the should_fail inversion', late[0].ast if late else fn)
 
 
 def r3a(ctx: RuleCtx) -> None:
     mod = ctx.repo.module(MTEST)
     protos = _protocol_classes(mod)
     ctx.floor('protocol classes registered in PROTOCOL_TO_CLASS', len(protos), 4)
-    mem = _members(ctx, mod)
+    members = _enum_names(mod, 'TestResult')
     unknown = set(protos) - set(KIND)
     if unknown:
         raise Undecided(f'protocols without a reference classification rule: {sorted(unknown)}')
     need = {'PENDING', 'RUNNING', 'OK', 'TIMEOUT', 'INTERRUPT', 'SKIP', 'FAIL', 'EXPECTEDFAIL', 'UNEXPECTEDPASS', 'ERROR'}
-    if not need <= set(mem):
-        raise AnchorMissing(f'TestResult lacks members {sorted(need - set(mem))}')
-    it0 = Interp(ctx.repo)
-    skip_c, err_c = it0.global_name('GNU_SKIP_RETURNCODE', mod), it0.global_name('GNU_ERROR_RETURNCODE', mod)
+    if not need <= set(members):
+        raise AnchorMissing(f'TestResult lacks members {sorted(need - set(members))}')
+    skip_c, err_c = fold_const(ctx.repo, mod, 'GNU_SKIP_RETURNCODE'), fold_const(ctx.repo, mod, 'GNU_ERROR_RETURNCODE')
     ctx.require((skip_c, err_c) == (SKIP_RC, ERROR_RC), 'GNU_SKIP_RETURNCODE/GNU_ERROR_RETURNCODE fold to 77/99', mod, '<module>', 'GNU_SKIP_RETURNCODE, GNU_ERROR_RETURNCODE',
                 f'the skip / hard-error exit statuses are {skip_c!r}/{err_c!r}; documented: 77/99')
-    states = [m for m in mem if m != 'PENDING']
+    states = [m for m in members if m != 'PENDING']
+    done: T.Set[int] = set()
+    base_q = 'TestRun.complete'
     for proto, cls in sorted(protos.items()):
-        kind = KIND[proto]
-        cref = ClassRef(mod, mod.cls(cls))
-        parsing = _const_property(ctx, mod, cref, 'needs_parsing')
-        rcs = (0, 1, 3, SKIP_RC, ERROR_RC)
-        exps: T.Tuple[T.Optional[int], ...] = (None, 0, 3, SKIP_RC, ERROR_RC) if kind == 'exitcode' else (None,)
-        n = 0
-        mism: T.Dict[T.Tuple[str, str], str] = {}
-        for res0 in states:
-            for rc, exp in itertools.product(rcs, exps):
-                if res0 != 'RUNNING' and kind == 'exitcode' and exp not in (None, 3):
-                    continue   # the expected status is only consulted for a RUNNING test (confirmed by the RUNNING worlds)
-                for xfail, inter in itertools.product((False, True), (False, True)):
-                    if parsing and inter:
-                        continue   # interactive + parsed protocol: result is IGNORED by design, outside the documented table
-                    want = ref_classify(kind, res0, rc, exp, xfail)
-
-                    def run(it: Interp) -> T.Any:
-                        o = Obj('self', cref, dict(res=mem[res0], returncode=tagged(rc, 'rc'), expected_exitcode=tagged(exp, 'exp'), expected_fail=xfail, stdo='', stde='',
-                                                   additional_error='', starttime=0.0, interactive=inter, verbose=False, is_parallel=True,
-                                                   test=Obj('self.test')))
-                        oc = outcome(it, lambda: it.call_method(o, 'complete'))
-                        return oc, o.attrs.get('res')
-                    leaves = explore(ctx.repo, run)
-                    for lf in leaves:
-                        n += 1
-                        oc, got = lf.data
-                        for opn, a, b in lf.interp.compares:
-                            if opn != 'Eq':
-                                raise Undecided(f'{cls}.complete orders exit statuses ({a!r} {opn} {b!r}); the sample domain is built for equality tests only')
-                            for x, other in ((a, b), (b, a)):
-                                if tag_of(x) and not tag_of(other) and other not in (0, SKIP_RC, ERROR_RC, None):
-                                    raise Undecided(f'{cls}.complete compares the exit status with {other!r}; the sample domain is built for 0/{SKIP_RC}/{ERROR_RC}/expected')
-                        if oc[0] != 'return':
-                            g = f'raises {oc[1]}'
-                        elif not isinstance(got, Member):
-                            raise Undecided(f'{cls}.complete leaves an unknown result {got!r}')
-                        else:
-                            g = got.name
-                        if g != want:
-                            mism.setdefault((g, want), f'previous result {res0}, exit status {rc}, expected status {exp}, should_fail={xfail}, interactive={inter}')
-        for (g, want), wit in mism.items():
-            ctx.violation(mod, f'{cls}.complete', f'{proto} classification: {want} expected, {g} computed',
-                          f'protocol {proto} ({cls}.complete -> ... -> _complete): for {wit} the result is {g}; documented rule: {want}', cref.node)
-        if not mism:
-            ctx.ok(f'protocol {proto}: {cls}.complete end-to-end table equals the documented rule on {n} evaluated worlds')
-    # complete_skip: SKIP, never inverted
-    for xfail in (False, True):
-        def run2(it: Interp) -> T.Any:
-            o = Obj('self', ClassRef(mod, mod.cls('TestRunExitCode')), dict(res=mem['PENDING'], returncode=None, expected_exitcode=None, expected_fail=xfail, stdo='', stde='',
-                                                                            starttime=None, interactive=False, verbose=False, is_parallel=True))
-            oc = outcome(it, lambda: it.call_method(o, 'complete_skip'))
-            return oc, o.attrs.get('res'), o.attrs.get('returncode')
-        for lf in explore(ctx.repo, run2):
-            oc, got, rc = lf.data
-            ctx.require(oc[0] == 'return' and got == mem['SKIP'], f'complete_skip (should_fail={xfail}) -> SKIP', mod, 'TestRun.complete_skip', f'complete_skip should_fail={xfail}',
-                        f'a test that cannot be executed is reported as {got!r} ({oc}); documented: SKIP')
-
-
-def _const_property(ctx: RuleCtx, mod: Module, cref: ClassRef, name: str) -> bool:
-    it = Interp(ctx.repo)
-    o = Obj('self', cref)
-    try:
-        v = it.getattr(o, name, ast.Name(id=name, ctx=ast.Load()), Frame(mod, {}, None, None, 0))
-    except Exception as e:
-        raise Undecided(f'{cref.node.name}.{name} is not a constant property: {e}')
-    if not isinstance(v, bool):
-        raise Undecided(f'{cref.node.name}.{name} is not a constant property: {v!r}')
-    return v
+        # the chain of `complete` definitions from the protocol class up to TestRun.complete
+        chain: T.List[T.Tuple[str, T.Any]] = []
+        for m_, c_ in ctx.repo.mro(mod, mod.cls(cls)):
+            for st in c_.body:
+                if isinstance(st, ast.FunctionDef) and st.name == 'complete':
+                    chain.append((f'{c_.name}.complete', st))
+        if not chain or chain[-1][0] != base_q:
+            raise Undecided(f'{cls}: complete() does not resolve to {base_q}')
+        kinds = ['pass' if not _writes_res(f) else '?' for _, f in chain[:-1]]
+        want_kinds = KIND[proto]
+        shape_ok = len(kinds) == len(want_kinds) and all(k == 'pass' if w == 'pass' else k == '?' for k, w in zip(kinds, want_kinds))
+        ctx.require(shape_ok, f'protocol {proto}: {cls} classifies through {[q for q, _ in chain]}', mod, f'{cls}.complete', f'complete() chain of protocol {proto}',
+                    f'protocol {proto} is classified by {[q for q, _ in chain]}; the documented rule needs {want_kinds or ["nothing"]} before {base_q}', mod.cls(cls))
+        if not shape_ok:
+            continue
+        for (q, f), k in zip(chain[:-1], want_kinds):
+            if id(f) in done:
+                continue
+            done.add(id(f))
+            _delegates(ctx, mod, q, f, 'super().complete')
+            if k != 'pass':
+                _check_res_table(ctx, mod, q, f, k, states)
+    _delegates(ctx, mod, base_q, mod.func(base_q), 'self._complete')
+    _check_res_table(ctx, mod, 'TestRun._complete', mod.func('TestRun._complete'), 'base', states)
+    # needs_parsing is a constant property per protocol class: exit-code protocols are never "parsed"
+    for proto, cls in sorted(protos.items()):
+        r = ctx.repo.find_method(mod, mod.cls(cls), 'needs_parsing')
+        rets = [x for x in walk_no_nested(r[2]) if isinstance(x, ast.Return)] if r else []
+        if not r or len(rets) != 1 or not isinstance(rets[0].value, ast.Constant) or not isinstance(rets[0].value.value, bool):
+            raise Undecided(f'{cls}.needs_parsing is not a constant property')
+        want = KIND[proto] != ['exitcode'] and KIND[proto] != ['pass', 'exitcode']
+        ctx.require(rets[0].value.value == want, f'{cls}.needs_parsing is {want}', mod, f'{cls}.needs_parsing', f'needs_parsing of {proto}',
+                    f'{cls}.needs_parsing is {rets[0].value.value}: ' + ('an interactive exit-code test would be reported IGNORED' if not want else 'the output of the protocol is not parsed'), r[2])
+    # complete_skip: SKIP with the skip status, then the base table
+    sq = 'TestRun.complete_skip'
+    sf = mod.func(sq)
+    _delegates(ctx, mod, sq, sf, 'self._complete')
+    _check_res_table(ctx, mod, sq, sf, 'skip', states + ['PENDING'])
 
 
 # ---------------------------------------------------------------------------
 # R3b: timeout table
 # ---------------------------------------------------------------------------
 
-def ref_timeout(interactive: bool, timeout: T.Optional[int], mult: T.Optional[float]) -> T.Optional[float]:
-    if interactive or timeout is None or timeout <= 0:
-        return None
-    if mult is None:
-        return timeout
-    if mult <= 0:
-        return None
-    return timeout * mult
-
-
 def r3b(ctx: RuleCtx) -> None:
     mod = ctx.repo.module(MTEST)
     init, expr, cls = _testrun_arg(mod, 'timeout')
+    roles = _init_roles(mod, 'SingleTestRunner')
+    if not isinstance(expr, ast.Name):
+        raise Undecided(f'SingleTestRunner.__init__: the timeout argument is not a local variable: {short(expr)}')
+    var = expr.id
+    stmts = _slice_for(init, {var})
+    if not stmts:
+        raise Undecided(f'SingleTestRunner.__init__: {var} is never assigned')
+
+    def eff(st: ast.AST) -> T.Optional[str]:
+        if isinstance(st, ast.Assign) and len(st.targets) == 1 and isinstance(st.targets[0], ast.Name) and st.targets[0].id == var:
+            return norm(_Roles(roles).visit(tables._copy(st.value)))
+        if any(isinstance(n, ast.Name) and n.id == var and isinstance(n.ctx, ast.Store) for n in ast.walk(st)):
+            raise Undecided(f'SingleTestRunner.__init__: unknown definition of {var}: {short(st)}')
+        return None
+    tab = tables.extract(init, body=stmts, effects=eff, name='SingleTestRunner.__init__:timeout')
+    TO, MU = 'test.timeout', 'options.timeout_multiplier'
     n = 0
-    foreign = False
     mism: T.Dict[str, str] = {}
-    for inter, to, mult in itertools.product((False, True), (None, -5, 0, 30), (None, -1, 0, 2, 0.5)):
-        want = ref_timeout(inter, to, mult)
-        leaves = _eval_init_expr(ctx, mod, init, expr, {'options.interactive': inter, 'test.timeout': to, 'options.timeout_multiplier': mult,
-                                                        'test.is_parallel': True, 'options.num_processes': 2})
-        for lf in leaves:
-            n += 1
-            for opn, a, b in lf.interp.compares:
-                for x, other in ((a, b), (b, a)):
-                    if tag_of(x) in ('timeout', 'timeout_multiplier') and (tag_of(other) or other not in (0, None)):
-                        raise Undecided(f'SingleTestRunner.__init__: timeout compared as {a!r} {opn} {b!r}; the sample domain is built for the threshold 0')
-                    if tag_of(x) == 'num_processes':
-                        foreign = True
-            oc = lf.data
-            got = oc[1] if oc[0] == 'return' else f'raises {oc[1]}'
-            if isinstance(got, Sym):
-                raise Undecided(f'SingleTestRunner.__init__: the timeout is not decided by interactive/test.timeout/timeout_multiplier: {got!r}')
-            if got != want or (got is not None and want is not None and type(got) is bool):
-                mism.setdefault(f'{got!r} instead of {want!r}', f'interactive={inter}, declared timeout={to}, multiplier={mult}')
+    holds = {'gt': ('pos',), 'le': ('neg', 'zero'), 'lt': ('neg',), 'ge': ('zero', 'pos')}   # ordering fact vs 0 -> sign classes
+    for inter, to_s, mu_s in itertools.product((False, True), ('none', 'neg', 'zero', 'pos'), ('none', 'neg', 'zero', 'pos')):
+        fired = []
+        for r in tab.rows:
+            ok = True
+            for a, v in r.conds.items():
+                if a.kind == 'truth' and _role_chain(a.args[0], roles) == 'options.interactive':
+                    t = inter
+                elif a.kind == 'is' and a.args[1] == 'None' and _role_chain(a.args[0], roles) in (TO, MU):
+                    t = (to_s if _role_chain(a.args[0], roles) == TO else mu_s) == 'none'
+                else:
+                    t = None
+                    for ch, st_ in ((TO, to_s), (MU, mu_s)):
+                        f = _lt_const(a, v, ch, roles)   # the ordering fact this row assumes
+                        if f is None:
+                            continue
+                        if f[1] != 0:
+                            raise Undecided(f'SingleTestRunner.__init__: {ch} is compared with {f[1]}; the documented threshold is 0')
+                        # an ordering test of None raises TypeError: such a row is not a normal outcome of this world
+                        t = v if st_ in holds[f[0]] else (not v)
+                    if t is None:
+                        raise Undecided(f'SingleTestRunner.__init__: the timeout depends on {a!r}')
+                if t != v:
+                    ok = False
+                    break
+            if ok:
+                fired.append(r)
+        want = 'None' if inter or to_s != 'pos' else TO if mu_s == 'none' else 'None' if mu_s != 'pos' else 'product'
+        world = f'interactive={inter}, declared timeout {to_s}, multiplier {mu_s} (sign class relative to 0)'
+        outs = set()
+        for r in fired:
+            g = r.effects[-1] if r.effects else '<unset>'
+            if g in (f'{TO} * {MU}', f'{MU} * {TO}'):
+                g = 'product'
+            outs.add(g)
+        n += 1
+        if not fired:
+            mism.setdefault('no normal outcome', world)
+        elif len(outs) != 1:
+            raise Undecided(f'SingleTestRunner.__init__: several rows fire for {world}: {sorted(outs)}')
+        elif outs != {want}:
+            mism.setdefault(f'{next(iter(outs))} instead of {want}', world)
     for k, wit in mism.items():
         ctx.violation(mod, 'SingleTestRunner.__init__', f'timeout table: {k}', f'effective timeout for {wit} is {k} (documented: no timeout when interactive, undeclared, '
                       f'<= 0 or multiplier <= 0; declared value without multiplier; product otherwise)', expr)
-    if not mism and foreign:
-        raise Undecided('SingleTestRunner.__init__: the timeout depends on num_processes')
     if not mism:
-        ctx.ok(f'timeout table of SingleTestRunner.__init__ (`{short(expr, 40)}` passed to {cls}) equals the reference on {n} evaluated worlds')
+        ctx.ok(f'timeout table of SingleTestRunner.__init__ ({len(tab.rows)} rows for `{var}`, passed to {cls}) equals the reference in {n} worlds of its atoms')
 
 
 # ---------------------------------------------------------------------------
 # R3c: serialisation order and scheduling fields
 # ---------------------------------------------------------------------------
 
-def _degree(e: ast.AST, param: str) -> T.Optional[int]:
-    """Polynomial degree of a sort-key expression in <param>.priority (None: outside +,-,* arithmetic)."""
+def _coef(e: ast.AST, param: str) -> T.Optional[T.Tuple[float, bool]]:
+    """Sort key as c * <param>.priority + const: (c, uses_priority); constants of the source are folded, nothing else."""
     if isinstance(e, ast.Constant) and isinstance(e.value, (int, float)) and not isinstance(e.value, bool):
-        return 0
+        return (float(e.value), False)
     if isinstance(e, ast.Attribute) and isinstance(e.value, ast.Name) and e.value.id == param:
-        return 1 if e.attr == 'priority' else None
+        return (1.0, True) if e.attr == 'priority' else None
     if isinstance(e, ast.UnaryOp) and isinstance(e.op, (ast.USub, ast.UAdd)):
-        return _degree(e.operand, param)
-    if isinstance(e, ast.BinOp) and isinstance(e.op, (ast.Add, ast.Sub, ast.Mult)):
-        l, r = _degree(e.left, param), _degree(e.right, param)
-        if l is None or r is None:
+        r = _coef(e.operand, param)
+        if r is None:
             return None
-        return l + r if isinstance(e.op, ast.Mult) else max(l, r)
+        return (-r[0] if isinstance(e.op, ast.USub) else r[0], r[1])
+    if isinstance(e, ast.BinOp) and isinstance(e.op, ast.Mult):
+        l, r = _coef(e.left, param), _coef(e.right, param)
+        if l is None or r is None or (l[1] and r[1]):
+            return None
+        return (l[0] * r[0], l[1] or r[1])
+    if isinstance(e, ast.BinOp) and isinstance(e.op, (ast.Add, ast.Sub)):
+        l, r = _coef(e.left, param), _coef(e.right, param)
+        if l is None or r is None or (l[1] and r[1]):
+            return None
+        if l[1]:
+            return l
+        if r[1]:
+            return (-r[0] if isinstance(e.op, ast.Sub) else r[0], True)
+        return None
     return None
 
 
@@ -680,7 +1019,6 @@ def r3c(ctx: RuleCtx) -> None:
     loop = loops[0]
     tv = loop.target.id
     it_ = loop.iter
-    # -- order of iteration
     order: T.Optional[str] = None
     if isinstance(it_, ast.Call) and call_name(it_) == 'sorted' and len(it_.args) == 1 and isinstance(it_.args[0], ast.Name) and it_.args[0].id == p0:
         key = next((k.value for k in it_.keywords if k.arg == 'key'), None)
@@ -689,19 +1027,10 @@ def r3c(ctx: RuleCtx) -> None:
             raise Undecided(f'{fq}: reverse= is not a constant')
         reverse = bool(rev.value) if rev is not None else False   # type: ignore[union-attr]
         if isinstance(key, ast.Lambda) and len(key.args.args) == 1:
-            kp = key.args.args[0].arg
-            if _degree(key.body, kp) != 1:
+            cf = _coef(key.body, key.args.args[0].arg)
+            if cf is None or not cf[1] or cf[0] == 0:
                 raise Undecided(f'{fq}: sort key is not a linear function of .priority: {short(key)}')
-            it = Interp(ctx.repo)
-            ks = [it.call_function(key, [Obj('t', None, {'priority': p})], {}, None, None, mod, 0) for p in (-2, 0, 3)]
-            if any(isinstance(k, Sym) for k in ks):
-                raise Undecided(f'{fq}: sort key not evaluable: {short(key)}')
-            if ks[0] < ks[1] < ks[2]:
-                order = 'descending' if reverse else 'ascending'
-            elif ks[0] > ks[1] > ks[2]:
-                order = 'ascending' if reverse else 'descending'
-            else:
-                order = 'unordered'
+            order = 'descending' if (cf[0] < 0) != reverse else 'ascending'
         elif key is None:
             raise Undecided(f'{fq}: sorted() without key')
         else:
@@ -712,7 +1041,6 @@ def r3c(ctx: RuleCtx) -> None:
         raise Undecided(f'{fq}: unknown iteration {short(it_)}')
     ctx.require(order == 'descending', 'tests are serialised in descending priority', mod, fq, 'iteration order of the serialisation loop',
                 f'the serialisation loop iterates {short(it_)}: order by priority is {order}; documented: higher priority starts first', it_)
-    # -- every iteration appends its test (no path skips one)
     cfg = CFG(fn)
     head = [n for n in cfg.nodes if n.kind == 'iter' and n.ast is loop]
     apps = cfg.nodes_with_call(lambda c: call_name(c) == f'{arr}.append')
@@ -720,7 +1048,6 @@ def r3c(ctx: RuleCtx) -> None:
     skip = any(cfg.can_reach(bf, head[0], apps) for bf in body_first if bf not in apps)
     ctx.require(not skip, 'every iteration of the serialisation loop appends its test', mod, fq, f'{arr}.append on every iteration path',
                 f'an iteration of the serialisation loop can return to the loop head without {arr}.append(...): a test is dropped', loop)
-    # -- the scheduling fields land in their slots
     ser = mod.cls('TestSerialisation')
     slots = [st.target.id for st in ser.body if isinstance(st, ast.AnnAssign) and isinstance(st.target, ast.Name)]
     builds = [c for c in ast.walk(loop) if isinstance(c, ast.Call) and call_name(c) == 'TestSerialisation']
@@ -750,73 +1077,105 @@ LABELS = {'OK': 'ok', 'EXPECTEDFAIL': 'expected fail', 'FAIL': 'fail', 'UNEXPECT
           'IGNORED': 'ignored', 'TIMEOUT': 'timeout'}   # docs/markdown/Unit-tests.md shows the block "Ok: / Fail: / ..."
 
 
-def _zero_fields(mod: Module) -> T.List[str]:
-    init = mod.func('TestHarness.__init__')
-    out = []
-    for st in init.body:
-        if isinstance(st, ast.Assign) and len(st.targets) == 1 and isinstance(st.value, ast.Constant) and st.value.value == 0 and type(st.value.value) is int:
-            ch = attr_chain(st.targets[0])
-            if ch and ch.startswith('self.') and ch.count('.') == 1:
-                out.append(ch.split('.')[1])
-    return out
+def _sum_terms(e: ast.AST) -> T.Optional[T.List[str]]:
+    """`self.a + self.b + ...` or `sum([self.a, ...])` -> the attribute chains added."""
+    if isinstance(e, ast.BinOp) and isinstance(e.op, ast.Add):
+        l, r = _sum_terms(e.left), _sum_terms(e.right)
+        return None if l is None or r is None else l + r
+    if isinstance(e, ast.Call) and call_name(e) == 'sum' and len(e.args) == 1 and isinstance(e.args[0], (ast.List, ast.Tuple)) and not e.keywords:
+        out: T.List[str] = []
+        for x in e.args[0].elts:
+            t = _sum_terms(x)
+            if t is None:
+                return None
+            out += t
+        return out
+    ch = attr_chain(e)
+    if ch and ch.startswith('self.') and ch.count('.') == 1:
+        return [ch]
+    return None
+
+
+def _truth_condition(e: ast.AST) -> T.Tuple[ast.AST, bool]:
+    """(c, polarity): the returned value `e` is non-zero iff c has truth value `polarity`."""
+    if isinstance(e, ast.IfExp) and isinstance(e.body, ast.Constant) and isinstance(e.orelse, ast.Constant) and bool(e.body.value) != bool(e.orelse.value):
+        return e.test, bool(e.body.value)
+    if isinstance(e, ast.Call) and isinstance(e.func, ast.Name) and e.func.id in ('int', 'bool') and len(e.args) == 1 and not e.keywords:
+        return _truth_condition(e.args[0])
+    return e, True
 
 
 def r4(ctx: RuleCtx) -> None:
     mod = ctx.repo.module(MTEST)
-    mem = _members(ctx, mod)
-    href = ClassRef(mod, mod.cls('TestHarness'))
-    zeros = _zero_fields(mod)
-    ctx.floor('integer fields initialised to 0 in TestHarness.__init__', len(zeros), 7)
-    it0 = Interp(ctx.repo)
-    fr0 = Frame(mod, {}, None, None, 0)
-
-    def member_pred(name: str, m: Member) -> bool:
-        bm = it0.getattr(m, name, ast.Name(id=name, ctx=ast.Load()), fr0)
-        v = it0.call_function(bm.fn, [], {}, m, bm.defcls, bm.mod, 0)
-        if not isinstance(v, bool):
-            raise Undecided(f'TestResult.{name}({m!r}) is not a constant')
-        return v
-    bad = {n for n, m in mem.items() if member_pred('is_bad', m)}
-    finished = {n for n, m in mem.items() if member_pred('is_finished', m)}
+    members = _enum_names(mod, 'TestResult')
+    bad = _method_member_set(ctx, mod, 'is_bad')
+    finished = _method_member_set(ctx, mod, 'is_finished')
     ctx.require(bad == BAD, f'TestResult.is_bad = {sorted(bad)}', mod, 'TestResult.is_bad', 'set of bad results',
                 f'is_bad() holds for {sorted(bad)}; documented failures: {sorted(BAD)} (failed, errored, timed out, interrupted, unexpectedly passed)', mod.func('TestResult.is_bad'))
-    ctx.require(finished == set(mem) - {'PENDING', 'RUNNING'}, f'TestResult.is_finished = all but PENDING/RUNNING', mod, 'TestResult.is_finished', 'set of finished results',
+    ctx.require(finished == set(members) - {'PENDING', 'RUNNING'}, 'TestResult.is_finished = all but PENDING/RUNNING', mod, 'TestResult.is_finished', 'set of finished results',
                 f'is_finished() holds for {sorted(finished)}')
 
-    # (a) one counter per finished result
-    counter_of: T.Dict[str, str] = {}
+    # (a) process_test_result: one arm and one counter per finished member
     fq = 'TestHarness.process_test_result'
-    pname = [a.arg for a in mod.func(fq).args.args if a.arg != 'self'][0]
-    for name in mem:
-        for maxfail in (False, True):
-            def run(it: Interp) -> T.Any:
-                h = Obj('self', href, {z: 0 for z in zeros})
-                h.attrs['maxfail_reached'] = maxfail
-                res = Obj(pname, None, {'res': mem[name]})
-                oc = outcome(it, lambda: it.call_method(h, 'process_test_result', res))
-                return oc, {z: h.attrs.get(z) for z in zeros}, list(it.effects)
-            for lf in explore(ctx.repo, run):
-                oc, after, effects = lf.data
-                changed = {z: v for z, v in after.items() if v != 0}
-                if name not in finished:
-                    ctx.require(oc[0] == 'raise' or not changed, f'unfinished result {name} is not tallied', mod, fq, f'arm for {name}',
-                                f'a {name} result is counted in {sorted(changed)}')
-                    continue
-                ok = oc[0] == 'return' and len(changed) == 1 and list(changed.values()) == [1]
-                if not ok:
-                    ctx.violation(mod, fq, f'arm for {name}', f'a finished {name} result (maxfail_reached={maxfail}) ' +
-                                  (f'ends in {oc[1]}' if oc[0] == 'raise' else f'changes the counters {changed}') + '; exactly one counter must be incremented by one',
-                                  mod.func(fq))
-                    continue
-                c = next(iter(changed))
-                if counter_of.setdefault(name, c) != c:
-                    raise Undecided(f'{fq}: the counter for {name} depends on maxfail_reached')
-                logged = any(e.startswith('for ') and '.log(' in e and pname in e for e in effects)
-                collected = any(e.endswith(f'.append({pname})') for e in effects)
-                want_coll = name in BAD and not (name == 'INTERRUPT' and maxfail)
-                ctx.require(logged and collected == want_coll, f'{name} (maxfail_reached={maxfail}): counter {c}, passed to every logger' + (', collected as failure' if want_coll else ''),
-                            mod, fq, f'reporting of {name}', f'a {name} result is ' + ('' if logged else 'not passed to the loggers (testlog.json/summary lose it); ') +
-                            (f'collected={collected} but failure={want_coll}' if collected != want_coll else ''), mod.func(fq))
+    fn = mod.func(fq)
+    subj = 'ARG1.res'
+    badres = Atom('truth', ('self.is_bad_result(ARG1)',))
+
+    def eff(st: ast.AST) -> T.Optional[str]:
+        if isinstance(st, ast.AugAssign):
+            ch = attr_chain(st.target)
+            if ch and ch.startswith('self.') and isinstance(st.op, ast.Add) and isinstance(st.value, ast.Constant) and st.value.value == 1:
+                return f'inc {ch}'
+            return f'write {norm(st)}'
+        if isinstance(st, ast.Assign) and len(st.targets) == 1:
+            ch = attr_chain(st.targets[0])
+            if ch and ch.startswith('self.'):
+                if norm(st.value) in (f'{ch} + 1', f'1 + {ch}'):
+                    return f'inc {ch}'
+                return f'write {norm(st)}'
+        if isinstance(st, ast.Expr) and isinstance(st.value, ast.Call):
+            cn = call_name(st.value) or ''
+            if cn in ('sys.exit', 'exit'):
+                return 'exit'
+            if cn.endswith('.append') and [norm(a) for a in st.value.args] == ['ARG1']:
+                return 'collect'
+        return None
+    tab = tables.extract(fn, effects=eff, unroll=0, name=fq)
+    counter_of: T.Dict[str, str] = {}
+    for m in members:
+        for isbad in (False, True):
+            fired = []
+            for r in tab.rows:
+                ok = True
+                for a, v in r.conds.items():
+                    if a == badres:
+                        t: T.Optional[bool] = isbad
+                    else:
+                        pred = _res_pred(ctx, mod, a, subj)
+                        if pred is None:
+                            raise Undecided(f'{fq}: arm selected by an unknown condition {a!r}')
+                        t = m in pred
+                    if t != v:
+                        ok = False
+                        break
+                if ok:
+                    fired.append(r)
+            if len(fired) != 1:
+                raise Undecided(f'{fq}: {len(fired)} rows fire for {m}')
+            effs = list(fired[0].effects)
+            incs = [e[4:] for e in effs if e.startswith('inc ')]
+            other = [e for e in effs if e.startswith('write ')]
+            if m not in finished:
+                ctx.require('exit' in effs or (not incs and not other), f'unfinished result {m} is not tallied', mod, fq, f'arm for {m}', f'a {m} result is counted in {incs}')
+                continue
+            ok = 'exit' not in effs and len(incs) == 1 and not other
+            if not ok:
+                ctx.violation(mod, fq, f'arm for {m}', f'a finished {m} result ' + ('has no arm (falls into sys.exit)' if 'exit' in effs else f'changes the counters {incs + other}') +
+                              '; exactly one counter must be incremented by one', fn)
+                continue
+            counter_of[m] = incs[0]
+            ctx.require(('collect' in effs) == isbad, f'{m}: `{incs[0]} += 1`; collected as failure iff is_bad_result ({isbad})', mod, fq, f'failure collection for {m}',
+                        f'a {m} result with is_bad_result={isbad} is ' + ('' if 'collect' in effs else 'not ') + 'appended to the collected failures', fn)
     groups: T.Dict[str, T.Set[str]] = {}
     for n_, c in counter_of.items():
         groups.setdefault(c, set()).add(n_)
@@ -824,96 +1183,109 @@ def r4(ctx: RuleCtx) -> None:
     want_groups = sorted(map(sorted, GROUPS))
     if len(counter_of) == len(finished):
         ctx.require(got_groups == want_groups, f'counter grouping {got_groups}', mod, fq, 'grouping of results into counters',
-                    f'results are grouped into counters as {got_groups}; documented: {want_groups}', mod.func(fq))
+                    f'results are grouped into counters as {got_groups}; documented: {want_groups}', fn)
+    # every result reaches every logger
+    cfg = CFG(fn)
+    logs = [n for n in cfg.nodes if n.kind == 'iter' and attr_chain(n.ast.iter) == 'self.loggers' and isinstance(n.ast.target, ast.Name)   # type: ignore[union-attr]
+            and all(isinstance(st, ast.Expr) and isinstance(st.value, ast.Call) for st in n.ast.body)   # type: ignore[union-attr]
+            and any(isinstance(c, ast.Call) and call_name(c) == f'{n.ast.target.id}.log' and any(isinstance(a, ast.Name) and a.id == fn.args.args[1].arg for a in c.args)   # type: ignore[union-attr]
+                    for c in ast.walk(n.ast))]
+    ctx.require(bool(logs) and cfg.dominated_by_any(cfg.exit_return, logs), 'every tallied result is passed to every logger (`for l in self.loggers: l.log(self, result)` on every path)',
+                mod, fq, 'logger loop on every path', 'process_test_result can return without passing the result to the loggers: testlog.json / console lose it', fn)
+    # is_bad_result implies is_bad
+    bq = 'TestHarness.is_bad_result'
+    bf = mod.func(bq)
+    brets = [r for r in walk_no_nested(bf) if isinstance(r, ast.Return) and r.value is not None]
+    if len(brets) != 1:
+        raise Undecided(f'{bq}: expected one return')
+    bp = [a.arg for a in bf.args.args if a.arg != 'self'][0]
+    ways = _ways_true(brets[0].value)
+    okb = bool(ways) and all(w.get(Atom('truth', (f'{bp}.res.is_bad()',))) is True for w in ways)
+    ctx.require(okb, 'is_bad_result(result) implies result.res.is_bad()', mod, bq, 'is_bad_result => is_bad', 'is_bad_result can hold for a result that is not bad', bf)
 
-    # (b) total_failure_count == counters of the bad results; doit returns 1 iff positive
+    # (b) total_failure_count sums exactly the counters of the bad results; doit returns non-zero iff it is positive
     tq = 'TestHarness.total_failure_count'
-    bad_counters = {counter_of[n_] for n_ in BAD if n_ in counter_of}
-    n_w = 0
-    mism = None
-    for vals in itertools.product((0, 1, 2), repeat=len(groups)):
-        world = dict(zip(sorted(groups), vals))
-
-        def run2(it: Interp) -> T.Any:
-            h = Obj('self', href, {z: 0 for z in zeros})
-            h.attrs.update(world)
-            return outcome(it, lambda: it.call_method(h, 'total_failure_count'))
-        for lf in explore(ctx.repo, run2):
-            n_w += 1
-            oc = lf.data
-            want = sum(v for c, v in world.items() if c in bad_counters)
-            if oc != ('return', want):
-                mism = (world, oc, want)
-    ctx.require(mism is None, f'total_failure_count = sum of the counters of bad results {sorted(bad_counters)} ({n_w} worlds)', mod, tq, 'sum of failure counters',
-                f'with counters {mism[0] if mism else ""} total_failure_count() gives {mism[1] if mism else ""}; the bad results ({sorted(BAD)}) add up to {mism[2] if mism else ""}',
-                mod.func(tq))
+    tf = mod.func(tq)
+    trets = [r for r in walk_no_nested(tf) if isinstance(r, ast.Return) and r.value is not None]
+    terms = _sum_terms(_inline_locals(tf, trets[0].value)) if len(trets) == 1 else None
+    if terms is None:
+        raise Undecided(f'{tq}: not a sum of counters')
+    bad_counters = sorted({counter_of[n_] for n_ in bad if n_ in counter_of})
+    ctx.require(sorted(terms) == bad_counters, f'total_failure_count sums {sorted(terms)} = counters of the bad results', mod, tq, 'sum of failure counters',
+                f'total_failure_count() adds {sorted(terms)}; the counters fed by the bad results {sorted(bad)} are {bad_counters}', tf)
     dq = 'TestHarness.doit'
     doit = mod.func(dq)
-    cfg = CFG(doit)
-    runs = cfg.nodes_with_call(lambda c: call_name(c) == 'self.run_tests')
+    cfgd = CFG(doit)
+    runs = cfgd.nodes_with_call(lambda c: call_name(c) == 'self.run_tests')
     if len(runs) != 1:
         raise Undecided(f'{dq}: expected one self.run_tests(...) call')
-    reach = cfg.reachable([runs[0]], edge_ok=lambda a, b, lab: lab != 'exc')
-    rets = [n for n in cfg.nodes if n.id in reach and n.kind == 'stmt' and isinstance(n.ast, ast.Return)]
+    reach = cfgd.reachable([runs[0]], edge_ok=lambda a, b, lab: lab != 'exc')
+    rets = [n for n in cfgd.nodes if n.id in reach and n.kind == 'stmt' and isinstance(n.ast, ast.Return)]
     ctx.floor('returns of doit after the tests ran', len(rets), 1)
     for rn in rets:
         rv = rn.ast.value   # type: ignore[union-attr]
         if rv is None:
             ctx.violation(mod, dq, rn.ast, 'doit returns None after running the tests: the exit status does not reflect failures', rn.ast)
             continue
-        stmts = _slice_for(doit, rv)
-        after_run = [st for st in stmts if any(cfg.can_reach(runs[0], x) for x in cfg.stmt_nodes(st))]
-        wrong = None
-        for vals in itertools.product((0, 1), repeat=len(groups)):
-            world = dict(zip(sorted(groups), vals))
-
-            def run3(it: Interp) -> T.Any:
-                h = Obj('self', href, {z: 0 for z in zeros})
-                h.attrs.update(world)
-                fr = Frame(mod, {'self': h}, href, h, 0)
-
-                def thunk() -> T.Any:
-                    it.exec_block(after_run, fr)
-                    return it.eval(rv, fr)
-                return outcome(it, thunk)
-            for lf in explore(ctx.repo, run3):
-                oc = lf.data
-                failing = any(v for c, v in world.items() if c in bad_counters)
-                if oc[0] != 'return' or isinstance(oc[1], Sym) or isinstance(oc[1], Obj):
-                    raise Undecided(f'{dq}: return value {short(rv)} is not decided by the counters: {oc}')
-                if bool(oc[1]) != failing:
-                    wrong = (world, oc[1], failing)
-        ctx.require(wrong is None, f'doit: `{short(rn.ast)}` is non-zero iff a bad result was counted', mod, dq, rn.ast,
-                    f'with counters {wrong[0] if wrong else ""} doit returns {wrong[1] if wrong else ""!r} although failures counted = {wrong[2] if wrong else ""}', rn.ast)
+        cond, pol = _truth_condition(_inline_locals(doit, rv, calls={'total_failure_count'}))
+        a, v = tables.canon(cond, pol)
+        call = 'self.total_failure_count()'
+        good = (a == Atom('cmp', ('lt', '0', call)) and v) or (a == Atom('cmp', ('eq', call, '0')) and not v) or (a == Atom('truth', (call,)) and v) \
+            or (a == Atom('cmp', ('lt', call, '1')) and not v)
+        subject_known = call in repr(a) or any(ch.startswith('self.') for ch in chains_in(cond))
+        if not good and not subject_known:
+            raise Undecided(f'{dq}: unknown exit status expression {short(rv)}')
+        ctx.require(good, f'doit: `{short(rn.ast)}` is non-zero iff total_failure_count() > 0', mod, dq, rn.ast,
+                    f'doit returns non-zero iff [{"" if v else "not "}{a!r}]; required: iff total_failure_count() > 0', rn.ast)
     runf = mod.func('run')
     fl = Flow(runf)
     rr = [r for r in ast.walk(runf) if isinstance(r, ast.Return) and r.value is not None and any(o.startswith('call:') and o.endswith('.doit') for o in fl.origins(r.value))]
     pure = [r for r in rr if isinstance(r.value, ast.Call) or isinstance(r.value, ast.Name)]
     ctx.require(bool(pure), 'run() returns the value of doit()', mod, 'run', 'return th.doit()', 'run() does not return the status computed by TestHarness.doit()', runf)
 
-    # (c) summary prints every counter under its label
+    # (c) summary: the label -> counter table, and every positive counter is printed
     sq = 'TestHarness.summary'
-    values = {c: 1 + i for i, c in enumerate(sorted(groups))}
-
-    def run4(it: Interp) -> T.Any:
-        h = Obj('self', href, {z: 0 for z in zeros})
-        h.attrs.update(values)
-        return outcome(it, lambda: it.call_method(h, 'summary'))
-    for lf in explore(ctx.repo, run4):
-        oc = lf.data
-        if oc[0] != 'return' or not isinstance(oc[1], str):
-            raise Undecided(f'{sq}: the text is not computed from the counters alone: {oc}')
-        printed: T.Dict[str, str] = {}
-        for line in oc[1].splitlines():
-            if ':' in line:
-                lab, _, val = line.partition(':')
-                printed[lab.strip().lower()] = val.strip()
-        for name, lab in LABELS.items():
-            c = counter_of.get(name)
-            if c is None:
-                continue
-            ctx.require(printed.get(lab) == str(values[c]), f'summary line "{lab}" shows the counter of {name} ({c})', mod, sq, f'summary line {lab}',
-                        f'with {c}={values[c]} the summary prints {printed.get(lab)!r} on the "{lab}" line (whole text: {oc[1]!r})', mod.func(sq))
+    sf = mod.func(sq)
+    dicts = [d for d in walk_no_nested(sf) if isinstance(d, ast.Dict) and d.keys and all(isinstance(k, ast.Constant) and isinstance(k.value, str) for k in d.keys)]
+    if len(dicts) != 1:
+        raise Undecided(f'{sq}: expected one constant-keyed table of counters')
+    table = {k.value.strip().rstrip(':').strip().lower(): attr_chain(v) for k, v in zip(dicts[0].keys, dicts[0].values)}   # type: ignore[union-attr]
+    for name, lab in LABELS.items():
+        c = counter_of.get(name)
+        if c is None:
+            continue
+        ctx.require(table.get(lab) == c, f'summary line "{lab}" shows the counter of {name} ({c})', mod, sq, f'summary line {lab}',
+                    f'the summary line "{lab}" shows {table.get(lab)}; the counter fed by {name} results is {c}', dicts[0])
+    holder = [st.targets[0].id for st in sf.body if isinstance(st, ast.Assign) and st.value is dicts[0] and isinstance(st.targets[0], ast.Name)]
+    loops = [st for st in sf.body if isinstance(st, ast.For) and holder and isinstance(st.iter, ast.Call) and call_name(st.iter) == f'{holder[0]}.items'
+             and isinstance(st.target, ast.Tuple) and len(st.target.elts) == 2 and all(isinstance(e, ast.Name) for e in st.target.elts)]
+    if len(loops) != 1:
+        raise Undecided(f'{sq}: expected one loop over the items of the table')
+    lab_v, cnt_v = [e.id for e in loops[0].target.elts]   # type: ignore[union-attr]
+    flw = Flow(sf)
+    all_apps = [c for c in ast.walk(loops[0]) if isinstance(c, ast.Call) and call_method(c) == 'append' and len(c.args) == 1]
+    apps = [c for c in all_apps if {lab_v, cnt_v} <= names_in(c.args[0])]
+    if all_apps and not apps:
+        raise Undecided(f'{sq}: the appended line does not mention label and count directly')
+    app_texts = {norm(c) for c in apps}
+    ltab = tables.extract(sf, body=loops[0].body, inline=False, name=sq + ':loop',
+                          effects=lambda st: 'print' if any(isinstance(c, ast.Call) and norm(c) in app_texts for c in ast.walk(st)) else None)
+    pos = Atom('cmp', ('lt', '0', cnt_v))
+    hidden = None
+    nrow = 0
+    for w in ltab.worlds([pos]):
+        if not w.get(pos):
+            continue
+        for r in ltab.fire(w):
+            nrow += 1
+            if 'print' not in r.effects:
+                hidden = r
+    ctx.require(bool(apps) and hidden is None and nrow > 0, 'summary: every counter > 0 is printed with its label', mod, sq, 'summary prints positive counters',
+                f'a counter > 0 can be omitted from the summary (row {hidden!r})' if hidden is not None else 'the summary loop does not print label and count', loops[0])
+    sret = [r for r in walk_no_nested(sf) if isinstance(r, ast.Return) and r.value is not None]
+    sink = {norm(c.func.value) for c in apps if isinstance(c.func, ast.Attribute)}
+    ctx.require(len(sret) == 1 and any(f'name:{s_}' in flw.origins(sret[0].value) or s_ in names_in(sret[0].value) for s_ in sink), 'summary returns the collected lines', mod, sq,
+                'summary returns the lines', 'the lines collected in the loop do not reach the returned text', sf)
 
 
 # ---------------------------------------------------------------------------
@@ -922,82 +1294,84 @@ def r4(ctx: RuleCtx) -> None:
 
 def r5(ctx: RuleCtx) -> None:
     mod = ctx.repo.module(MTEST)
-    # (a) argument parser: 'i/n' -> (i, n) iff 1 <= i <= n
-    tsf = mod.func('test_slice')
+    # (a) argument parser: "i/n" -> (int(part 0), int(part 1)), accepted iff 0 < i, 0 < n, not n < i
+    tq = 'test_slice'
+    tsf = mod.func(tq)
+    tab = tables.extract(_propagated(tsf, {'split'}), inline_calls={'split'}, name=tq)
+    part = lambda k: f"int(ARG1.split('/')[{k}])"   # noqa: E731
+    I, N = part(0), part(1)
+    sem = {Atom('cmp', ('eq', "len(ARG1.split('/'))", '2')): 'two', Atom('cmp', ('lt', '0', I)): 'i>0', Atom('cmp', ('lt', '0', N)): 'n>0',
+           Atom('cmp', ('lt', N, I)): 'n<i', Atom('cmp', ('lt', I, N)): 'i<n', Atom('cmp', ('eq', I, N)): 'i=n', Atom('cmp', ('eq', N, I)): 'i=n'}
     n = 0
     mism = None
-    args = [f'{i}/{k}' for i in range(-1, 5) for k in range(-1, 4)] + ['3', 'a/2', '1/b', '1/2/3', '']
-    for arg in args:
-        def run(it: Interp) -> T.Any:
-            return outcome(it, lambda: it.call_function(tsf, [arg], {}, None, None, mod, 0))
-        parts = arg.split('/')
-        try:
-            i, k = (int(parts[0]), int(parts[1])) if len(parts) == 2 else (None, None)
-        except ValueError:
-            i = k = None
-        want: T.Any = ('return', (i, k)) if i is not None and k is not None and k >= 1 and 1 <= i <= k else 'raise'
-        for lf in explore(ctx.repo, run):
-            n += 1
-            oc = lf.data
-            got = oc if oc[0] == 'return' else 'raise'
-            if got != want:
-                mism = (arg, oc, want)
-    ctx.require(mism is None, f'test_slice: "i/n" -> (i, n) for 1 <= i <= n, rejected otherwise ({n} arguments)', mod, 'test_slice', 'roles of SLICE and NUM_SLICES',
-                f'test_slice({mism[0] if mism else ""!r}) gives {mism[1] if mism else ""}; expected {mism[2] if mism else ""}', tsf)
+    shape = [r for r in tab.rows if r.outcome[0] == 'return' and r.outcome[1] != f'({I}, {N})']
+    if shape:
+        ctx.violation(mod, tq, 'roles of SLICE and NUM_SLICES', f'test_slice returns `{shape[0].outcome[1]}`; "SLICE/NUM_SLICES" requires `({I}, {N})`', tsf)
+        return
+    unknown = [a for a in tab.atoms() if a not in sem]
+    if unknown:
+        raise Undecided(f'{tq}: conditions outside the reference vocabulary: {unknown}')
+    for w in tab.worlds(list(sem)):
+        v = {k: w.get(a) for a, k in sem.items() if a in w}
+        accept = bool(v.get('two')) and bool(v.get('i>0')) and bool(v.get('n>0')) and not v.get('n<i')
+        rows = tab.fire(w)
+        if len(rows) != 1:
+            raise Undecided(f'{tq}: {len(rows)} rows fire in {w}')
+        n += 1
+        r = rows[0]
+        got = r.outcome[1] if r.outcome[0] == 'return' else 'raise' if r.outcome[0] == 'raise' else r.outcome[0]
+        want = f'({I}, {N})' if accept else 'raise'
+        if got != want:
+            mism = (', '.join(('' if x else 'not ') + k for k, x in v.items()), got, want)
+    ctx.require(mism is None, f'test_slice: "i/n" -> (i, n) when 0 < i <= n, rejected otherwise ({len(tab.rows)} rows, {n} worlds)', mod, tq, 'roles of SLICE and NUM_SLICES',
+                f'for an argument with [{mism[0] if mism else ""}] test_slice gives `{mism[1] if mism else ""}`; expected `{mism[2] if mism else ""}`', tsf)
     adds = [c for c in ast.walk(mod.func('add_arguments')) if isinstance(c, ast.Call) and call_method(c) == 'add_argument' and c.args
             and isinstance(c.args[0], ast.Constant) and c.args[0].value == '--slice']
     ok = len(adds) == 1 and any(k.arg == 'type' and isinstance(k.value, ast.Name) and k.value.id == 'test_slice' for k in adds[0].keywords) \
         and not any(k.arg == 'dest' for k in adds[0].keywords)
     ctx.require(ok, '--slice is parsed by test_slice into options.slice', mod, 'add_arguments', "add_argument('--slice')", '--slice is not parsed by test_slice into options.slice')
 
-    # (b) get_tests: slices i=1..n partition the selected tests
+    # (b) get_tests: tests = tests[i - 1::n] with (i, n) = options.slice
     gq = 'TestHarness.get_tests'
     fn = mod.func(gq)
     idx = [i for i, st in enumerate(fn.body) if isinstance(st, ast.If) and any(c.endswith('options.slice') for c in chains_in(st.test))]
     if len(idx) != 1:
         raise Undecided(f'{gq}: expected one top-level `if self.options.slice` statement')
-    st_if = fn.body[idx[0]]
+    st_if = T.cast(ast.If, fn.body[idx[0]])
     last = fn.body[-1]
     if not (isinstance(last, ast.Return) and isinstance(last.value, ast.Name)):
         raise Undecided(f'{gq}: does not end with `return <list of tests>`')
     var = last.value.id
-    if var not in {n.id for n in ast.walk(st_if) if isinstance(n, ast.Name) and isinstance(n.ctx, ast.Store)}:
-        raise Undecided(f'{gq}: `if self.options.slice` does not rebind the returned list {var}')
-    href = ClassRef(mod, mod.cls('TestHarness'))
-    tail = fn.body[idx[0]:]
-    nw = 0
-    bad: T.Optional[str] = None
-    guard_raises = 0
-    for k in range(0, 7):
-        tests = [f't{j}' for j in range(k)]
-        for nsl in range(1, 6):
-            seen: T.List[str] = []
-            complete = True
-            for i in range(1, nsl + 1):
-                def run5(it: Interp) -> T.Any:
-                    h = Obj('self', href, {'options': Obj('self.options', None, {'slice': (i, nsl)})})
-                    fr = Frame(mod, {'self': h, var: list(tests), 'errorfile': None}, href, h, 0)
+    unp = [st for st in st_if.body if isinstance(st, ast.Assign) and len(st.targets) == 1 and isinstance(st.targets[0], ast.Tuple) and len(st.targets[0].elts) == 2
+           and all(isinstance(e, ast.Name) for e in st.targets[0].elts) and (attr_chain(st.value) or '').endswith('options.slice')]
+    if len(unp) != 1:
+        raise Undecided(f'{gq}: options.slice is not unpacked into two names')
+    iv, nv = [e.id for e in unp[0].targets[0].elts]   # type: ignore[union-attr]
 
-                    oc = outcome(it, lambda: it.run_body(tail, fr))
-                    return oc[1] if oc[0] == 'return' else oc
-                for lf in explore(ctx.repo, run5):
-                    nw += 1
-                    oc = lf.data
-                    if oc[0] == 'raise':
-                        complete = False
-                        if nsl <= k:
-                            bad = bad or f'{k} tests, --slice {i}/{nsl}: raises {oc[1]} although there are enough tests'
-                        else:
-                            guard_raises += 1
-                        continue
-                    if not isinstance(oc[1], list) or any(not isinstance(x, str) for x in oc[1]):
-                        raise Undecided(f'{gq}: result is not a list of the selected tests: {oc[1]!r}')
-                    seen.extend(oc[1])
-            if complete and sorted(seen) != sorted(tests):
-                bad = bad or f'{k} tests, slices 1..{nsl} together select {sorted(seen)} (each test must be selected by exactly one slice)'
-    ctx.require(bad is None, f'get_tests: slices 1..n partition the selected tests ({nw} evaluations, lists of 0..6 tests, n = 1..5)', mod, gq, st_if,
-                f'--slice does not partition the tests: {bad}', st_if)
-    ctx.note(f'get_tests rejects n > len(tests) in {guard_raises} evaluated worlds (not required for the partition)')
+    def eff(st: ast.AST) -> T.Optional[str]:
+        if isinstance(st, ast.Assign) and len(st.targets) == 1 and isinstance(st.targets[0], ast.Name) and st.targets[0].id == var:
+            return norm(st.value)
+        return None
+    shell = tables._copy(fn)
+    shell.body = [tables._copy(st) for st in st_if.body if st is not unp[0]]
+    shell = _propagated(shell)
+    stab = tables.extract(shell, body=shell.body, effects=eff, inline=False, name=gq + ':slice')
+    want_slice = f'{var}[{iv} - 1::{nv}]'
+    few = Atom('cmp', ('lt', f'len({var})', nv))
+    bad: T.Optional[str] = None
+    nrows = 0
+    for r in stab.rows:
+        nrows += 1
+        extra = [a for a in r.conds if not (a.kind == 'cmp' and set(a.args[1:]) in ({f'len({var})', nv}, {f'len({var})', iv}))]
+        if extra:
+            raise Undecided(f'{gq}: slicing depends on {extra}')
+        if r.outcome[0] == 'raise':
+            if r.conds.get(few) is not True:
+                bad = bad or f'`{r!r}`: the request is rejected although there are at least as many tests as slices'
+        elif list(r.effects) != [want_slice]:
+            bad = bad or f'`{r!r}`: the selected tests are {list(r.effects) or "unchanged"}; offset SLICE-1 and stride NUM_SLICES require {want_slice}'
+    ctx.require(bad is None and nrows > 0, f'get_tests: {want_slice} with ({iv}, {nv}) = options.slice ({nrows} rows)', mod, gq, st_if,
+                f'--slice does not select every NUM_SLICES-th test starting at SLICE-1: {bad}', st_if)
 
 
 RULES = [
